@@ -658,6 +658,9 @@ func (e *execState) runBlock(bi int, blk *Block, prev *Snap) (*blockObs, bool) {
 			e.checkHooksBlock(bo, br, mFx, true)
 			return bo, false
 		}
+		if br.PanicAt != "" {
+			msg += " [" + br.PanicAt + "]"
+		}
 		res.addV("C07", "block.fail", classifyHalt(msg), fmt.Sprintf("FinalizeBlock %s at block %d (t=%d): %s", kind, bi, blk.TimeNs, msg), bi, -1)
 		return bo, false
 	}
@@ -996,6 +999,13 @@ func classifyHalt(msg string) string {
 	case strings.Contains(msg, "invalid auction status"):
 		return "terminal-auction-in-loop"
 	case strings.Contains(msg, "overflow"):
+		// keep the panicking function of the module in the class: "overflow [types.Match @ file:line]" -> "overflow:types.Match"
+		if i := strings.Index(msg, "["); i >= 0 {
+			site := msg[i+1:]
+			if j := strings.Index(site, " @"); j > 0 {
+				return "overflow:" + site[:j]
+			}
+		}
 		return "overflow"
 	case strings.Contains(msg, "insufficient funds"):
 		return "insufficient-funds"
